@@ -122,6 +122,11 @@ M = [
     ("C13-if_for_while", "eudoxia/workload/workload.py",
      "        while self.next_batch is not None and self.get_next_batch_tick() <= self.current_tick:\n",
      "        for _ in range(3 if self.next_batch is not None and self.get_next_batch_tick() <= self.current_tick else 0):\n            if self.next_batch is None or self.get_next_batch_tick() > self.current_tick:\n                break\n"),
+    ("C13-cli_gentrace_whole_seconds", "eudoxia/__main__.py",
+     "        duration_secs=params['duration']\n", "        duration_secs=int(params['duration'])\n"),
+    ("C13-cli_run_reader_tps", "eudoxia/__main__.py",
+     "            workload = reader.get_workload(params['ticks_per_second'])\n",
+     "            workload = reader.get_workload(min(params['ticks_per_second'], 1000))\n"),
     # ---- C14
     ("C14-mem0_unset", "eudoxia/workload/csv_io.py",
      "            'memory_gb': row.memory_gb if row.memory_gb is not None else '',\n", "            'memory_gb': row.memory_gb if row.memory_gb else '',\n"),
@@ -175,6 +180,12 @@ M = [
      "        fieldnames = reader.fieldnames\n\n        pipelines = []", "        fieldnames = reader.fieldnames[:9]\n\n        pipelines = []"),
     ("C20-snap_round", "eudoxia/tools.py",
      "                snapped = math.floor(ticks + 16 * math.ulp(ticks)) / ticks_per_second\n", "                snapped = math.floor(ticks + 0.02) / ticks_per_second\n"),
+    ("C20-cli_jitter_seed_dropped", "eudoxia/__main__.py",
+     "jitter_command(args.input_workload, args.output_file, args.delta, seed=args.seed, force=args.force)",
+     "jitter_command(args.input_workload, args.output_file, args.delta, force=args.force)"),
+    ("C20-cli_sample_start_seed_dropped", "eudoxia/__main__.py",
+     "                                      start_seed=args.start_seed, jitter_seed=args.jitter_seed)",
+     "                                      jitter_seed=args.jitter_seed)"),
     ("C20-sample_seed_offset", "eudoxia/tools.py",
      "        seed = start_seed + i\n", "        seed = start_seed + i // 2 * 2\n"),
 ]
